@@ -47,7 +47,7 @@ def look(t):
     while True:
         if t[0] in ("ref", "deref"):
             t = t[1]
-        elif t[0] == "call" and last_seg(t[1]) in ("deref", "as_str", "as_bytes", "as_slice", "as_ref", "borrow", "deref_mut", "as_mut") and len(t[2]) == 1:
+        elif t[0] == "call" and t[1].split("::")[0] in ("std", "core", "alloc") and last_seg(t[1]) in ("deref", "as_str", "as_bytes", "as_slice", "as_ref", "borrow", "deref_mut", "as_mut") and len(t[2]) == 1:
             t = t[2][0]
         elif t[0] == "cast" and "PointerCoercion" in t[3]:
             t = t[1]
@@ -106,3 +106,15 @@ def as_bytes_val(v):
 
 def fmt_t(t):
     return term_s(t)
+
+
+def option_is_some(c):
+    """For a switch on the discriminant of an Option: True (Some) / False (None) / None (undecided)."""
+    if c[0] == "eq":
+        return c[1] == 1
+    if c[0] == "ne":
+        if 1 in c[1] and 0 not in c[1]:
+            return False
+        if 0 in c[1] and 1 not in c[1]:
+            return True
+    return None
